@@ -63,7 +63,17 @@ def handle (op : String) (req : Json) : R Json := do
     | none => pure (jObj [("rendered", jBool false)])
     | some rd =>
       let hyp := truthHyp a sel
-      let model := sync rd.rows sel rd.times rd.delay isnan squeeze
+      -- how the caller holds the signal (array shape) and describes its clock (stamps / interval)
+      let shape ← getList asNat req "shape"
+      let clock ← getStr req "clock"
+      let interval := a.interval rd.times
+      let shapeOk := dataSize shape == rd.times.length
+      let clk ← match clock, interval with
+        | "stamps", _ => pure (Clock.stamps rd.times)
+        | "interval", some dt => pure (Clock.interval dt)
+        | "interval", none => pure (Clock.stamps rd.times)   -- not a uniformly sampled signal: reported, not compared
+        | c, _ => throw s!"bad clock {c}"
+      let model := syncClock rd.rows sel shape clk rd.delay isnan squeeze
       let box := truthBox a sel
       let full := truthImage a sel box.1 box.2
       let specImg := if squeeze then (squeezeImg isnan box.2 full) else (full, box.2)
@@ -72,6 +82,7 @@ def handle (op : String) (req : Json) : R Json := do
         | some p => [(p.sxu : Rat) / 10000, (p.syu : Rat) / 10000]
         | none => []
       pure (jObj [("rendered", jBool true), ("hyp", jBool hyp),
+        ("interval", jOpt jRat interval), ("shape_ok", jBool shapeOk),
         ("rows", jList jRow rd.rows), ("times", jList jRat rd.times), ("delay", jRat rd.delay),
         ("model", jResult model),
         ("spec", jObj [("shape", jList jNat [specImg.1.length, specImg.2]), ("pixels", jImg specImg.1),
@@ -80,13 +91,17 @@ def handle (op : String) (req : Json) : R Json := do
     -- the mechanism alone on an explicit log and signal
     let rows ← getList parseRow req "rows"
     let sel ← parseSel req
-    let ts ← getList asRat req "times"
+    -- the clock: `times` = list of stamps, or `interval` = seconds per sample; `shape` = data.shape
+    let shape ← getList asNat req "shape"
+    let clk ← match (← fld req "interval") with
+      | .null => Clock.stamps <$> getList asRat req "times"
+      | j => Clock.interval <$> asRat j
     let delay ← getRat req "delay"
     let squeeze ← getBool req "squeeze"
     let nanMod ← getNat req "nan_mod"
     let nanRem ← getNat req "nan_rem"
     let isnan : Nat → Bool := fun k => nanMod != 0 && k % nanMod == nanRem
-    pure (jObj [("model", jResult (sync rows sel ts delay isnan squeeze))])
+    pure (jObj [("model", jResult (syncClock rows sel shape clk delay isnan squeeze))])
   | "c08.pix" =>
     let q ← getRat req "q"
     pure (jObj [("round6trunc", jInt (pixIdx q)), ("trunc", jInt (pixIdxTrunc q))])
